@@ -215,6 +215,16 @@ fn check_seq(case: &SeqCase) -> Verdict {
     let mut acc = Acc::default();
     let out = model::run(case.parties as usize, &case.ops, mode);
     acc.add(&out.stats);
+    let mut bytes = vec![case.parties, case.callers_only as u8];
+    bytes.extend(case.ops.iter().map(|op| match *op {
+        Op::P => 0u8,
+        Op::Px => 1,
+        Op::Kp => 2,
+        Op::V(i) => 3 + i,
+        Op::R(i) => 6 + i,
+        Op::D(i) => 9 + i,
+    }));
+    let fp = vcommon::fnv1a(&bytes);
     if let model::End::Failed(i, fails) = out.end {
         for (sig, msg) in fails {
             let detail = format!(
@@ -228,7 +238,9 @@ fn check_seq(case: &SeqCase) -> Verdict {
             acc.fail(sig, i + 1, detail);
         }
     }
-    acc.into_verdict(false)
+    let mut v = acc.into_verdict(false);
+    v.fingerprint = Some(fp);
+    v
 }
 
 fn tree_cases(
@@ -262,26 +274,25 @@ fn tree_cases(
     out.into_iter()
 }
 
-fn op_strategy(parties: u8) -> impl Strategy<Value = Op> {
-    let p = 0..parties;
-    prop_oneof![
-        8 => p.clone().prop_map(Op::V),
-        8 => p.clone().prop_map(Op::R),
-        1 => p.prop_map(Op::D),
-        5 => Just(Op::P),
-        1 => Just(Op::Kp),
-        // dropping the receiver ends observation: rare
-        1 => prop_oneof![9 => Just(Op::P), 1 => Just(Op::Px)],
-    ]
+/// Random sequences are decoded from raw bytes (cheap to generate; shrink towards `P`).
+fn decode_op(raw: u16, parties: u8) -> Op {
+    let sel = (raw & 0xff) as u8;
+    let party = ((raw >> 8) as u8) % parties;
+    match sel {
+        0..=54 => Op::P,
+        55..=134 => Op::V(party),
+        135..=219 => Op::R(party),
+        220..=234 => Op::D(party),
+        235..=250 => Op::Kp,
+        _ => Op::Px,
+    }
 }
 
 fn seq_strategy(max_len: usize) -> impl Strategy<Value = SeqCase> {
-    (2u8..=3, any::<bool>()).prop_flat_map(move |(parties, callers_only)| {
-        proptest::collection::vec(op_strategy(parties), 0..=max_len).prop_map(move |ops| SeqCase {
-            parties,
-            callers_only,
-            ops,
-        })
+    (2u8..=3, any::<bool>(), proptest::collection::vec(any::<u16>(), 0..=max_len)).prop_map(|(parties, callers_only, raw)| SeqCase {
+        parties,
+        callers_only,
+        ops: raw.into_iter().map(|r| decode_op(r, parties)).collect(),
     })
 }
 
@@ -329,9 +340,9 @@ fn main() {
         |w, ws| tree_cases(3, true, d3 + 2, 3, w, ws),
         check_tree,
     );
-    let n = ctx.pick(400_000, 20_000_000);
+    let n = ctx.pick(3_000_000, 40_000_000);
     ctx.prop("random", n, || seq_strategy(60), check_seq);
-    let n = ctx.pick(12_000, 600_000);
+    let n = ctx.pick(30_000, 1_000_000);
     ctx.prop("threads", n, threads::strategy, threads::check);
     ctx.finish();
 }
